@@ -215,6 +215,11 @@ class SSHLocalForwarder(SSHForwarder):
         except ChannelOpenError as exc:
             self.connection_lost(exc)
             return
+        except Exception:
+            # Don't leave the local connection open when opening the
+            # channel fails in some other way, such as a protocol error
+            self.close()
+            raise
 
         assert self._peer is not None
 
